@@ -15,6 +15,11 @@ RULE = ("dumps(loads(t1), o) == t1 bytewise for t1 = dumps(d, o); loads(t1) == l
         "(same and other process); decided by spec/TraceOptions.tla JudgeIdem; distinct = (document, option set)")
 
 
+def vocab_slots():
+    from .. import vocab
+    return [tuple(x[:3]) for x in vocab.slot_shapes(vocab.get())]
+
+
 def run(tier):
     ck = common.Check("C04", tier, "model_checking", RULE)
     quick = tier == "quick"
@@ -43,6 +48,34 @@ def run(tier):
                 docs_.append(("expr:%d:%s.%s" % (e_i, info["slot"][0], info["slot"][1]), text, loads(text)))
             except Exception:  # noqa: BLE001
                 continue
+    # boundary strings in every string-valued slot and in key-value blocks: escaped quotes of either kind and
+    # backslashes must neither grow nor shrink when formatted text is formatted again (quote option " and ')
+    specials = ['The \\"best\\" roads', "it\\'s here", "..\\symbols\\star.png"]
+    multi = {}
+    for s_ in vocab_slots():
+        multi.setdefault((s_[0], s_[1]), set()).add(s_[2])
+    strslots = [h for h in sl if h[-1]["info"]["slot"][2] == "str" and h[-1]["info"]["pos"] == "alone"]
+    for k, sp in enumerate(specials):
+        concs = concretise.Concretiser(seed, strings=[sp])
+        for i, h in enumerate(strslots):
+            info = h[-1]["info"]
+            if quick and len(multi.get((info["slot"][0], info["slot"][1]), ())) < 2 and (i + seed + k) % 4:
+                continue
+            text, _ = concretise.assemble(concs.tokens(concretise.with_root(h, _docs.root_type(h))))
+            try:
+                docs_.append(("special:%d:%s.%s" % (k, info["slot"][0], info["slot"][1]), text, loads(text)))
+            except Exception:  # noqa: BLE001
+                continue
+        q = "'" if '"' in sp else '"'
+        for kvt in ("METADATA", "VALIDATION", "CONNECTIONOPTIONS", "VALUES"):
+            parent = {"VALUES": "SCALETOKEN", "CONNECTIONOPTIONS": "LAYER"}.get(kvt, "LAYER")
+            text = "%s\n  %s\n    %skey_a%s %s%s%s\n    'key_b' 'plain'\n  END\nEND\n" % (parent, kvt, q, q, q, sp, q)
+            try:
+                docs_.append(("special:%d:kv.%s" % (k, kvt.lower()), text, loads(text)))
+            except Exception:  # noqa: BLE001
+                continue
+    quote_sets = [next(o for o in sets if o["quote"] == qq and o["nl"] == "LF" and not o["separate_complex_types"] and not o["align_values"]
+                       and o["indent"] == 4 and not o["end_comment"] and o["spacer"] == "SP") for qq in ("DQ", "SQ")]
     records, meta, other = [], {}, []
     for tid, text, d in docs_:
         is_corpus = tid.startswith("corpus")
@@ -51,21 +84,23 @@ def run(tier):
         use = cover if (quick or is_corpus) else sets[:: 6]
         if tid.startswith("expr:"):
             use = use[:6] if quick else use[:40]
+        if tid.startswith("special:"):
+            use = quote_sets
         for oi, o in enumerate(use):
             kw = optrun.kwargs(o)
             itn = tracecheck.Interner()
             rec = {"tid": "%s|%d" % (tid, oi), "what": "idem", "opts": o, "digest_other": 0}
             ck.count()
             try:
-                t1 = impl.PrettyPrinter(**kw).pprint(copy.deepcopy(d))
+                t1 = impl.fresh_dumps(copy.deepcopy(d), **kw)
                 d1 = loads(t1)
-                t2 = impl.PrettyPrinter(**kw).pprint(copy.deepcopy(d1))
+                t2 = impl.fresh_dumps(copy.deepcopy(d1), **kw)
                 d2 = loads(t2)
                 # "the same dictionary and options always produce the same text": the very same object, dumped twice
                 # (separate_complex_types reorders its argument on the first call, which the second call then keeps)
                 same = copy.deepcopy(d)
-                impl.PrettyPrinter(**kw).pprint(same)
-                t1b = impl.PrettyPrinter(**kw).pprint(same)
+                impl.fresh_dumps(same, **kw)
+                t1b = impl.fresh_dumps(same, **kw)
                 rec.update(accepted=True, digest1=itn.s(optrun.digest(t1)), digest2=itn.s(optrun.digest(t2)),
                            digest_again=itn.s(optrun.digest(t1b)),
                            proj1=itn.value(project.project(d1)), proj2=itn.value(project.project(d2)))
